@@ -1,6 +1,10 @@
 package main
 
-import "golang.org/x/tools/go/ssa"
+import (
+	"go/token"
+
+	"golang.org/x/tools/go/ssa"
+)
 
 // loopHeaderOf returns the innermost loop header H such that b is inside the natural loop of H
 // (H dominates b and some predecessor P of H is dominated by H and reachable from b without leaving H's dominance).
@@ -77,7 +81,7 @@ func everyIterationPassesR(must ssa.Instruction, pass func(ssa.Instruction) bool
 	first := h.Instrs[0]
 	var starts []cfgPos
 	for _, s := range loopBodyEntries(h) {
-		starts = append(starts, cfgPos{s, 0})
+		starts = append(starts, cfgPos{B: s, I: 0})
 	}
 	_, path, found := reachAvoiding(starts, func(in ssa.Instruction) bool {
 		if in == first {
@@ -159,4 +163,142 @@ func naturalLoop(h *ssa.BasicBlock) map[*ssa.BasicBlock]bool {
 		}
 	}
 	return in
+}
+
+// edgePathSets: the facts the branch condition of edge from→to establishes, split per way the condition can
+// take that value: when the condition is the boolean result of a module function, one set per return path of
+// that function (its per-path facts translated to the call's arguments); otherwise one set.
+func (fx *Facts) edgePathSets(from, to *ssa.BasicBlock) []FactSet {
+	iff, ok := from.Instrs[len(from.Instrs)-1].(*ssa.If)
+	if !ok || from.Succs[0] == from.Succs[1] {
+		return nil
+	}
+	w := WantFalse
+	if from.Succs[0] == to {
+		w = WantTrue
+	}
+	cond := iff.Cond
+	for {
+		if u, isNot := cond.(*ssa.UnOp); isNot && u.Op == token.NOT {
+			cond = u.X
+			w = w.neg()
+			continue
+		}
+		break
+	}
+	var call *ssa.Call
+	idx := 0
+	switch x := cond.(type) {
+	case *ssa.Call:
+		call = x
+	case *ssa.Extract:
+		if c, isCall := x.Tuple.(*ssa.Call); isCall {
+			call, idx = c, x.Index
+		}
+	}
+	if call != nil {
+		if cal := call.Common().StaticCallee(); cal != nil && len(cal.Blocks) > 0 && hasModPrefix(cal) {
+			var out []FactSet
+			for _, rp := range fx.retPaths(cal, idx, w) {
+				s := emptySet()
+				for _, f := range rp.Facts.M {
+					s.add(Fact{f.T.subst(callActuals(call)), f.Pol})
+				}
+				s.add(fx.atom(cond, w))
+				if !s.Bottom {
+					out = append(out, s)
+				}
+			}
+			if len(out) > 0 {
+				return out
+			}
+		}
+	}
+	fs := fx.valueFacts(iff.Cond, func() Want {
+		if from.Succs[0] == to {
+			return WantTrue
+		}
+		return WantFalse
+	}(), 0, map[ssa.Value]bool{})
+	if fs.Bottom {
+		return nil
+	}
+	return []FactSet{fs}
+}
+
+// edgeEstablishesAll: every way the edge's condition can hold satisfies ok.
+func (fx *Facts) edgeEstablishesAll(from, to *ssa.BasicBlock, ok func(FactSet) bool) bool {
+	sets := fx.edgePathSets(from, to)
+	if len(sets) == 0 {
+		return false
+	}
+	for _, s := range sets {
+		if !ok(s) {
+			return false
+		}
+	}
+	return true
+}
+
+// allPathsSatisfy: every way of reaching instruction `in` (merges split per incoming path) establishes a fact
+// set accepted by ok. When a path's own facts are not enough but contain the boolean outcome of a module
+// predicate, the path is split further by the ways that predicate can produce this outcome (its per-return
+// facts, translated to the call's arguments): each of them must be accepted.
+func (fx *Facts) allPathsSatisfy(in ssa.Instruction, ok func(FactSet) bool) bool {
+	sets := fx.pathFactsTo(in.Block(), 3)
+	if len(sets) == 0 {
+		return false
+	}
+	for _, s := range sets {
+		if s.Bottom || ok(s) {
+			continue
+		}
+		expanded := false
+		for _, f := range s.sorted() {
+			var call *ssa.Call
+			idx := 0
+			switch v := f.T.V.(type) {
+			case *ssa.Call:
+				call = v
+			case *ssa.Extract:
+				if c, isCall := v.Tuple.(*ssa.Call); isCall {
+					call, idx = c, v.Index
+				}
+			}
+			if call == nil || (f.T.Op != "call" && f.T.Op != "extract") {
+				continue
+			}
+			cal := call.Common().StaticCallee()
+			if cal == nil || len(cal.Blocks) == 0 || !hasModPrefix(cal) {
+				continue
+			}
+			w := WantFalse
+			if f.Pol {
+				w = WantTrue
+			}
+			rps := fx.retPaths(cal, idx, w)
+			if len(rps) == 0 {
+				continue
+			}
+			all := true
+			for _, rp := range rps {
+				s2 := s.clone()
+				for _, g := range rp.Facts.M {
+					s2.add(Fact{g.T.subst(callActuals(call)), g.Pol})
+				}
+				if !s2.Bottom && !ok(s2) {
+					all = false
+					break
+				}
+			}
+			if all {
+				expanded = true
+				break
+			}
+		}
+		if !expanded {
+			return false
+		}
+	}
+	return true
 }
